@@ -253,6 +253,40 @@ pub fn run_blob_opts<B: Backend>(acc: &mut Acc, c: &BlobCase, filter: Option<&Mu
             }
         }
     }
+    // text-level header edits: a stretch of the header inserted again (`k4.seal..seal.<data>`), in every
+    // position the header's dots allow, 1..3 times, with and without the closing dot
+    {
+        let dots: Vec<usize> = text.match_indices('.').map(|(i, _)| i).collect();
+        let mut variants: Vec<String> = Vec::new();
+        for a in 0..dots.len() {
+            for b in a + 1..dots.len() {
+                for closing in [true, false] {
+                    for times in 1..=3usize {
+                        let (i, j) = (dots[a], dots[b]);
+                        let part = if closing { &text[i..=j] } else { &text[i..j] };
+                        let at = if closing { j + 1 } else { j };
+                        variants.push(format!("{}{}{}", &text[..at], part.repeat(times), &text[at..]));
+                    }
+                }
+            }
+        }
+        // the version prefix repeated as well
+        if let Some(d0) = dots.first() {
+            variants.push(format!("{}{}", &text[..=*d0], text));
+        }
+        for (vi, t2) in variants.iter().enumerate() {
+            let id = MutId { class: "header-part-repeated".into(), pos: vi as u32, arg: 0 };
+            if !want(&id) {
+                continue;
+            }
+            acc.eval();
+            acc.class("mutant:header-part-repeated");
+            acc.nt(hash_of(&(c, &id)));
+            if unwrap_any(t2).is_ok() {
+                acc.fail(Fail::new(format!("C06/{name}/{kn}/{ks}/header-part-repeated/accepted"), format!("the text {:.60}... (part of the header inserted again) unwrapped", t2)), rcase(&id));
+            }
+        }
+    }
     // other wrapping key / password / recipient
     let mut others: Vec<(MutId, Result<Vec<u8>, PasetoError>)> = Vec::new();
     let mk = |class: &str, pos: usize| MutId { class: class.into(), pos: pos as u32, arg: 0 };
@@ -505,7 +539,7 @@ pub fn def() -> PropertyDef {
     PropertyDef {
         id: "C06",
         level: "fault_enumeration",
-        rule: "for each library-produced PIE / PBKW / PKE blob (proptest-sampled keys, passwords, recipients): every single-bit flip of every byte (v1 k1.seal: deterministic spread in quick, all tag/edk/edge bits in thorough), every truncation front and back, 1-3 byte insertions at every field boundary, header rewritten local<->secret and to every other version (same secret bytes), other wrapping key + one-bit neighbours, other / extended / truncated / empty password, other recipient; oracle: unwrap returns Err for every mutant and never a key, unmutated control returns the original key. paseto-v1 additionally: k1.seal blobs computed from public data alone for ciphertexts the RSA operation refuses (c >= n: n, n+1, n+2, midpoint, 2^4096-2, all-ones) and every guess of r in {empty, 0, 1 in one-byte and 512-byte width, c itself}, under two recipients: never a key. PBKW mutants whose parameter field exceeds the budget (10000 iterations / 16 MiB / 3 passes) are skipped and counted. Non-trivial iff the mutant keeps all fixed-width fields; distinct by (blob, class, position)",
+        rule: "for each library-produced PIE / PBKW / PKE blob (proptest-sampled keys, passwords, recipients): every single-bit flip of every byte (v1 k1.seal: deterministic spread in quick, all tag/edk/edge bits in thorough), every truncation front and back, 1-3 byte insertions at every field boundary, header rewritten local<->secret and to every other version (same secret bytes), every stretch of the header between two of its dots inserted again 1..3 times, other wrapping key + one-bit neighbours, other / extended / truncated / empty password, other recipient; oracle: unwrap returns Err for every mutant and never a key, unmutated control returns the original key. paseto-v1 additionally: k1.seal blobs computed from public data alone for ciphertexts the RSA operation refuses (c >= n: n, n+1, n+2, midpoint, 2^4096-2, all-ones) and every guess of r in {empty, 0, 1 in one-byte and 512-byte width, c itself}, under two recipients: never a key. PBKW mutants whose parameter field exceeds the budget (10000 iterations / 16 MiB / 3 passes) are skipped and counted. Non-trivial iff the mutant keeps all fixed-width fields; distinct by (blob, class, position)",
         assumptions: vec!["PBKW blobs use the cheapest parameters so that every mutant's KDF runs", "mutants are offered through FromStr + unwrap/unseal"],
         subs,
     }
